@@ -155,6 +155,7 @@ type FrontResult struct {
 	Groups    [][]jComment   `json:"groups"`
 	MarkersSane bool         `json:"markersSane"`
 	DistinctFields bool      `json:"distinctFields"`
+	MethodsApart bool        `json:"methodsApart"`
 	Metas     []FuncMeta     `json:"metas"`
 }
 
